@@ -267,6 +267,21 @@ func init() {
 			}
 			// map-order seam (woven copy): every list of <=2 entries over the reduced universe under
 			// every order of every map iteration of the planner
+			// every entry kind alone (the sibling-directory glob, trees with links, ...), then pairs over the reduced universe
+			for _, p := range []string{"deb", "rpm"} {
+				for _, t := range c05Templates(false) {
+					for _, d := range []string{"/a", "/a/", "/a/b", "a"} {
+						e := t.e
+						e.Dst = d
+						if !yield(C05Case{Part: "maporder", Packager: p, List: []model.Entry{e}}) {
+							return
+						}
+						if !yield(C05Case{Part: "maporder", Packager: p, List: []model.Entry{e, {Src: "etc/app.conf", Dst: "/c"}}}) {
+							return
+						}
+					}
+				}
+			}
 			ru := c05Universe(true)
 			for _, p := range []string{"deb", "rpm"} {
 				for _, a := range ru {
